@@ -41,6 +41,7 @@ def one(rnd):
     a = n_api.make(2, idb, keyb, [R1, R2, R3, R4])
     k, v = n_api.call(a, "control_breeze_device", [remote, state, mode, t, fan, swing, update], now)
     writes, reads = a._writer.log, a._reader.n
+    one.last_writes = writes
     desc = dict(state=state and state.name, mode=mode and mode.name, fan=fan and fan.name, swing=swing and swing.name, t=t, update=update,
                 sep=sep, R1=R1.hex(), R2=R2.hex(), R3=R3.hex(), R4=R4.hex(), dev_id=idb.hex(), now=now, irset=irset["IRSetID"],
                 outcome=k if k == "ret" else exc_name(v), writes=[w.hex() for w in writes])
